@@ -12,7 +12,7 @@ HARNESS = ["network/transport/v2/zz_verif_c07_test.go", "network/transport/v2/zz
 REQUIRED = ["safety_any_schedule", "unsolicited_responses_change_no_dag", "chunks_lossless", "stable_when_equal",
             "pull_round_result", "stuck_both_ways_same", "round_progress", "converges", "stable_after_convergence", "rounds_are_schedules", "range_reply_sorted_prefixclosed",
             "fact_constants", "fact_blockable", "fact_transaction_set_shape", "fact_transaction_list_shape", "fact_gossip_condition",
-            "fact_handled_envelopes", "fact_liveness_constants", "fact_dispatch_and_wiring", "chunks_fit_message_limit", "fact_chunk_accounting"]
+            "fact_handled_envelopes", "fact_liveness_constants", "fact_dispatch_and_wiring", "chunks_fit_message_limit", "fact_chunk_accounting", "fact_add_mutex_release", "add_mutex_released_on_every_exit", "deferred_once_releases_exactly_once", "hooks_alone_leave_mutex_locked"]
 
 
 def scenario_slices(ops):
@@ -103,6 +103,12 @@ def run(ctx):
     feats, kinds = Counter(), Counter()
     n_bad = 0
     per_sig = Counter()
+    hangs = [v for v in verdicts if v.get("kind") == "hang"]
+    verdicts = [v for v in verdicts if v.get("kind") != "hang"]
+    for h in hangs:
+        n_bad += 1
+        ctx.violation("C07:handler-blocked-forever", f"scenario {h['scenario']}: {h['what']} (the node's DAG is frozen: no convergence)", f"handler-blocked-{h['scenario']}.jsonl",
+                      replay_text(ops, header, h["first_op"], h["last_op"]))
     for v in verdicts:
         for f in v.get("features", []):
             feats[re.sub(r"=\d+$", "", f) if f.startswith(("prefix-steps", "maxmsg", "diff", "runs")) else f] += 1
@@ -194,6 +200,8 @@ def run(ctx):
             edges["connection-down-or-disconnected"] += 1
         if l.startswith("sent=[] ") and " q=" in l and not l.endswith(" q=0"):
             edges["tick-without-connection-keeps-queue"] += 1
+        if l.startswith("ret=err:db-busy"):
+            edges["add-failed-database-busy"] += 1
         if " q=" in l and l.startswith("sent=[m") and "refs=#0:" not in l:
             edges["gossip-with-refs"] += 1
     for i, l in enumerate(ops):
@@ -207,7 +215,7 @@ def run(ctx):
         for f in v.get("features", []):
             if f in ("equal-height-large-diff-on-page>=1", "behind-peer-wide-page0", "many-refs-per-clock", "disjoint-branches"):
                 edges["scenario:" + f] += 1
-    need += ["scenario:equal-height-large-diff-on-page>=1", "scenario:behind-peer-wide-page0", "node-restart"]
+    need += ["scenario:equal-height-large-diff-on-page>=1", "scenario:behind-peer-wide-page0", "node-restart", "add-failed-database-busy"]
     missing_edges = [e for e in need if edges[e] == 0] if not ctx.replay else []
     ctx.oblige("generator-reaches-the-protocol-edges(quick tier)", not missing_edges, f"edges not reached: {missing_edges}; reached: {dict(edges)}")
 
